@@ -20,6 +20,7 @@ EXPLANATION = (
     ' Added after seed round 3: (8) _prepare_user_args returns tuples it built itself (a snapshot of the connect-time arguments).'
     " Round 4: (9) callbacks are compared by equality, never identity; (10) MetaSignals.__init__ extends only the class's own signal list (from the class dict) or a fresh one."
     " Round-4 triage: (11) every loop over a handler list whose body compares (==) or calls iterates a snapshot - emit and disconnect; every dereferenced weak reference in the module is tested by identity with None (a live sender may be falsy). Round 5: (12) disconnect() by arguments ends its search at the first match. Round 7: (12) ... and removes the match by key, never by an index counted on the snapshot it iterates; (13) SENTINEL: the deprecated user_arg is tested against None by identity before it is passed on; (14) ATOMIC: handler lists are edited in single list operations, never rewritten from a traversal of themselves (a GC-run weak-argument disconnect re-enters between bytecodes; fix 543d613)."
+    ' Round 8: (5) extended: the dispatch loop lies on every path through emit() - no return in front of it.'
 )
 NOT_DECIDED = "Call order and argument order for all histories (list semantics), garbage-collection timing, behaviour for handlers connected/disconnected mid-emit beyond 'handlers that stay connected are called once'."
 ASSUMPTIONS = []
